@@ -6,7 +6,6 @@ import (
 	"golang.org/x/tools/go/ssa"
 
 	"polyverif/core"
-	"polyverif/eng"
 	"polyverif/ir"
 )
 
@@ -23,7 +22,11 @@ func checkRelayerListLoops(c *core.Ctx) {
 		if fn == nil {
 			continue
 		}
-		loops := eng.FindSliceLoops(fn, func(v ssa.Value) bool { return isFieldNamed(v, "AddressList") })
+		host, loops, release := sliceLoopsVia(fn, func(v ssa.Value) bool { return isFieldNamed(v, "AddressList") })
+		defer release()
+		if host != fn {
+			c.Attribute(host, fn)
+		}
 		if len(loops) == 0 {
 			c.Broken("C36.whole-list", fn, "loop over the request's AddressList", c.P.Rel(fn.Pos()), "not found")
 			continue
